@@ -1,0 +1,26 @@
+//go:build verif
+
+package kademlia
+
+import "time"
+
+// VerifBucket is a read-only projection of one bucket, for the verification harness.
+type VerifBucket[V any] struct {
+	Entries      []Entry[V]
+	MinExpiresAt time.Time
+}
+
+// VerifDump returns the cache's internal state: the incrementally maintained count
+// and every bucket with its entries. It is only compiled with the verif build tag.
+func (kc *Cache[V]) VerifDump() (count int, buckets []VerifBucket[V]) {
+	kc.mu.RLock()
+	defer kc.mu.RUnlock()
+	for _, b := range kc.buckets {
+		vb := VerifBucket[V]{MinExpiresAt: b.minExpiresAt}
+		for _, e := range b.entries {
+			vb.Entries = append(vb.Entries, e)
+		}
+		buckets = append(buckets, vb)
+	}
+	return kc.count, buckets
+}
